@@ -34,18 +34,18 @@ import (
 )
 
 type nodeStats struct {
-	Ops, Genuine, Mutated, Accepted, Rejected, Panics, Execs                                                                                                              int
-	Duplicates                                                                                                                                                            int
-	DuplicateHist                                                                                                                                                         map[string]int
-	MutationHist                                                                                                                                                          map[string]int
-	OutcomeHist                                                                                                                                                           map[string]int
-	Monitors                                                                                                                                                              []string
-	Samples                                                                                                                                                               []string
-	Notes                                                                                                                                                                 []string
-	Scenarios                                                                                                                                                             int
-	C08Compared, C08Resets, TwoRoundScenarios, C08InDealsWindow, ReinitProbes, Reinits                                                                                    int
-	CancelledRounds                                                                                                                                                       int
-	C08Late, C08StampsMoved, PrefilledResults, JSONVariants, KeylessReinits, ReinitVariants, ForgedOwnName, CollectedHere, C08RealLoop, ProposalsStored, ReorderedReinits int
+	Ops, Genuine, Mutated, Accepted, Rejected, Panics, Execs                                                                                                                            int
+	Duplicates                                                                                                                                                                          int
+	DuplicateHist                                                                                                                                                                       map[string]int
+	MutationHist                                                                                                                                                                        map[string]int
+	OutcomeHist                                                                                                                                                                         map[string]int
+	Monitors                                                                                                                                                                            []string
+	Samples                                                                                                                                                                             []string
+	Notes                                                                                                                                                                               []string
+	Scenarios                                                                                                                                                                           int
+	C08Compared, C08Resets, TwoRoundScenarios, C08InDealsWindow, ReinitProbes, Reinits                                                                                                  int
+	CancelledRounds                                                                                                                                                                     int
+	C08Late, C08StampsMoved, PrefilledResults, JSONVariants, KeylessReinits, ReinitVariants, ForgedOwnName, CollectedHere, C08RealLoop, ProposalsStored, ReorderedReinits, ErrorResults int
 }
 
 func tsTok(t time.Time) string {
@@ -790,6 +790,7 @@ func (r *nodeRun) scenario(outDir string, n, t int, twoRounds bool) {
 		perMsg = 40
 	}
 	consumed := uint64(0)
+	history := map[string][]storage.Message{} // round -> the genuine messages the observer has been handed so far
 	// observerPoll: what Poll does for the observer, through feed(), with mutations in between
 	observerPoll := func() int {
 		msgs := c.boardMessages()
@@ -888,6 +889,28 @@ func (r *nodeRun) scenario(outDir string, n, t int, twoRounds bool) {
 				}
 				gen := r.feed(c, obs, m, "genuine")
 				r.st.Genuine++
+				// C10: a signed message is good for the step it was made for: an OLDER genuine message of this round, shown again
+				// now (a later step, a later batch), is refused or changes nothing
+				if olds := history[m.DkgRoundID]; len(olds) > 0 {
+					for _, idx := range []int{r.rng.Intn(len(olds)), len(olds) - 1 - r.rng.Intn(minInt(3, len(olds)))} {
+						old := olds[idx]
+						if old.Event == m.Event && old.SenderAddr == m.SenderAddr {
+							continue
+						}
+						// (a proposal shown again while the round is idle opens the same batch again: the same message for the same
+						// step - nothing in C10 separates the two; noted as an observation in DESIGN.md, not demanded here)
+						if old.Event == "event_signing_start" || old.Event == "event_sig_proposal_init" {
+							continue
+						}
+						res := r.feedOp(c, obs, old, "mut:stale-replay", "trymsg")
+						r.st.Mutated++
+						r.st.MutationHist["stale-replay/"+res.outcome]++
+						if res.outcome == "ok" && res.before != res.after {
+							r.mon(fmt.Sprintf("C10 bound_to_round_and_step: mutated message (stale-replay: the genuine %s of %s, shown again after a %s from %s) was accepted and changed the node state", old.Event, old.SenderAddr, m.Event, m.SenderAddr))
+						}
+					}
+				}
+				history[m.DkgRoundID] = append(history[m.DkgRoundID], m)
 				phase = "a"
 				if half < len(muts) {
 					rest := muts[half:]
@@ -1137,6 +1160,7 @@ func runNodeDiff(outDir string, seed int64, tier string) {
 	for i, cf := range cfgs {
 		r.scenario(outDir, cf[0], cf[1], i%2 == 1)
 	}
+	r.errorResults(outDir)
 	r.ops.Flush()
 	r.obs.Flush()
 	fo.Close()
